@@ -51,6 +51,11 @@ def run_cox(ctx, rep):
         n, p = rng.randrange(2, 9), rng.randrange(1, 5)
         X = gen_matrix(rng, n, p, rng.choice(["gauss", "dyadic", "sparse"])) * 0.5
         tm = np.array([float(rng.choice([1, 2, 2, 3, 3, 3, 4, 5.5, 7])) for _ in range(n)])   # many ties
+        scale = rng.choice(["unit", "unit", "unit", "timestamps", "close"])
+        if scale == "timestamps":          # same tie pattern on a time axis where distinct times are relatively close
+            tm = 1.7e9 + tm
+        elif scale == "close":
+            tm = 1.0 + tm * 1e-6
         s = np.array([float(rng.random() < 0.7) for _ in range(n)])
         if rng.random() < 0.15:
             s[:] = 1.0
